@@ -178,12 +178,12 @@ def _check_back(ctx, back, mesh, site, inst=None):
         return False
     ok = True
     for a in range(ndim):
-        if abs(back.cell[a] - mesh.cell[a]) > 1e-12 * abs(mesh.cell[a]):
+        if C.gt(abs(back.cell[a] - mesh.cell[a]), 1e-12 * abs(mesh.cell[a])):
             ctx.fail(f"{site}/cell", f"axis {a}: cell {back.cell[a]!r} instead of {mesh.cell[a]!r}", instance=inst)
             ok = False
         edge = float(mesh.n[a]) * float(mesh.cell[a])
         c = 0.5 * (back.region.pmin[a] + back.region.pmax[a])
-        if abs(c) > 1e-12 * edge:
+        if C.gt(abs(c), 1e-12 * edge):
             ctx.fail(f"{site}/not-centred-at-origin", f"axis {a}: centre {c!r} (edge {edge!r})", instance=inst)
             ok = False
     ctx.check(2)
@@ -295,7 +295,7 @@ def unit_dft(ctx):
         E = _dft_matrix(_centres(km), n, mesh.cell)
         ctx.check(N)
         err = np.abs(M - E)
-        if err.max() > 1e-12 * N:
+        if C.gt(err.max(), 1e-12 * N):
             w = np.unravel_index(int(np.argmax(err)), err.shape)
             ctx.fail(f"Field.{tr}/value-not-dft-at-k-centre",
                      f"impulse at flat cell {int(w[1])}, flat k-cell {int(w[0])}: got {M[w]!r}, "
@@ -303,7 +303,7 @@ def unit_dft(ctx):
         if kind == "complex":
             Mi, _ = _impulse_matrix(ctx, mesh, tr, 1j, N)
             ctx.check(N)
-            if np.abs(Mi - 1j * M).max() > 1e-12 * N:
+            if C.gt(np.abs(Mi - 1j * M).max(), 1e-12 * N):
                 ctx.fail(f"Field.{tr}/not-linear/imaginary-impulse", "transform(1j*e) != 1j*transform(e)", instance=inst)
         # (ii) tracer fields: linear, per component; zero-frequency cell = plain sum
         zero = tuple(0 if (half and a == ndim - 1) else n[a] // 2 for a in range(ndim))
@@ -324,16 +324,16 @@ def unit_dft(ctx):
             flat = v.reshape(N, nv)
             exp_lin = M @ flat
             ctx.check()
-            if np.abs(out.reshape(-1, nv) - exp_lin).max() > 1e-12 * N * vmax:
+            if C.gt(np.abs(out.reshape(-1, nv) - exp_lin).max(), 1e-12 * N * vmax):
                 ctx.fail(f"Field.{tr}/not-linear", f"transform of a {nv}-component field differs from the sum of the "
                          f"impulse responses (per component)", instance=inst)
             ctx.check()
-            if np.abs(out.reshape(-1, nv) - E @ flat).max() > 1e-12 * N * vmax:
+            if C.gt(np.abs(out.reshape(-1, nv) - E @ flat).max(), 1e-12 * N * vmax):
                 ctx.fail(f"Field.{tr}/value-not-dft-at-k-centre", f"{nv}-component tracer field differs from the DFT sum",
                          instance=inst)
             ctx.check()
             s = flat.sum(axis=0)
-            if np.abs(out[zero] - s).max() > 1e-12 * N * vmax:
+            if C.gt(np.abs(out[zero] - s).max(), 1e-12 * N * vmax):
                 ctx.fail(f"Field.{tr}/zero-frequency-cell-not-sum",
                          f"cell {zero} holds {out[zero].tolist()}, the plain sum is {s.tolist()}", instance=inst)
             ctx.check()
@@ -349,7 +349,7 @@ def unit_dft(ctx):
                 full, half_ = spectra[("fftn", nv)], spectra[("rfftn", nv)]
                 vmax = float(N * nv)
                 ctx.check()
-                if np.abs(full[..., idx, :] - half_).max() > 1e-12 * N * vmax:
+                if C.gt(np.abs(full[..., idx, :] - half_).max(), 1e-12 * N * vmax):
                     ctx.fail("Field.rfftn/not-half-of-fftn", f"rfftn differs from the cells {idx} (last axis) of fftn",
                              instance=inst)
 
@@ -386,7 +386,7 @@ def unit_inverse(ctx):
             b = f.ifftn().fftn()
             ctx.observe(np.round(np.asarray(b.array), 6))
             ctx.check()
-            if b.array.shape != v.shape or np.abs(b.array - v).max() > 1e-12 * N * vmax:
+            if b.array.shape != v.shape or C.gt(np.abs(b.array - v).max(), 1e-12 * N * vmax):
                 ctx.fail("Field.fftn(ifftn)/values", "fftn(ifftn(g)) does not reproduce g", instance=inst)
             continue
         else:
@@ -409,7 +409,7 @@ def unit_inverse(ctx):
         if out.shape != v.shape:
             ctx.fail(f"{site}/result-shape", f"array {out.shape}, expected {v.shape}", instance=inst)
             continue
-        if must_values and np.abs(out - v).max() > 1e-12 * N * vmax:
+        if must_values and C.gt(np.abs(out - v).max(), 1e-12 * N * vmax):
             w = np.unravel_index(int(np.argmax(np.abs(out - v))), v.shape)
             ctx.fail(f"{site}/values", f"round trip differs at {tuple(int(i) for i in w)}: {out[w]!r} vs {v[w]!r}",
                      instance=inst)
